@@ -300,6 +300,9 @@ func init() {
 			ps := perms(len(entries))
 			perm := ps[c.Free(len(ps), "perm")]
 			style := c.Free(3, "valuestyle") // 0 small uint, 1 nested array, 2 nested map
+			// the two encoders of one entry are independent: 0 key first (as every caller in the repository
+			// does), 1 value first, 2 value started, then the key, then the rest of the value
+			order := c.Free(3, "callback order: key first / value first / interleaved")
 			var mes []*cbor.MapEntryEncoder
 			var kvs []refcbor.KV
 			var desc string
@@ -320,15 +323,29 @@ func init() {
 				_ = pos
 				kk := k
 				mes = append(mes, cbor.GenerateMapEntry(func(ke, ve *cbor.Encoder) {
-					kk.enc(ke)
+					if order == 0 {
+						kk.enc(ke)
+					} else {
+						defer func() {
+							if order == 1 || (order == 2 && style == 0) { // a one-call value has no middle
+								kk.enc(ke)
+							}
+						}()
+					}
 					switch style {
 					case 0:
 						ve.EncodeUint(val)
 					case 1:
 						ve.EncodeArrayHeader(2)
+						if order == 2 {
+							kk.enc(ke)
+						}
 						ve.EncodeUint(val)
 						ve.EncodeTextString("x")
 					case 2:
+						if order == 2 {
+							kk.enc(ke)
+						}
 						// nested map supplied in non-canonical order
 						ve.EncodeMap([]*cbor.MapEntryEncoder{
 							cbor.GenerateMapEntry(func(k2, v2 *cbor.Encoder) { k2.EncodeTextString("bb"); v2.EncodeUint(val) }),
@@ -342,7 +359,7 @@ func init() {
 			err := cbor.NewEncoder(&got).EncodeMap(mes)
 			want, rerr := refcbor.EncMap(kvs)
 			c.Eval()
-			desc = fmt.Sprintf("EncodeMap(keys in caller order: %sstyle=%d)", desc, style)
+			desc = fmt.Sprintf("EncodeMap(keys in caller order: %sstyle=%d callback-order=%d)", desc, style, order)
 			c.Sample(desc)
 			if rerr != nil {
 				c.State([]byte("dup"), []byte(desc))
@@ -467,7 +484,7 @@ func init() {
 	register(&mc.Property{
 		ID:    "C11",
 		Level: "model_checking",
-		Rule:  "choice-tree enumeration of encoder inputs: every uint64/int64 within +-64 of each head boundary and every 2^k+-1; byte/text strings of every length 0..300 and around 65536; all text contents of length <=3 over a 15-byte UTF-8 boundary alphabet (incl. U+FFFD); every subset of <=4 (quick) / <=5 (thorough) keys from a pool of 10 mixed-type keys in every permutation plus every duplicated key, three value styles; all encoder call sequences up to depth 3 (quick) / 5 (thorough) over an 11-call menu. A case is non-trivial when it produced output that was compared byte-for-byte with the independent canonical encoder (or was a refused input); distinct by output/input hash.",
+		Rule:  "choice-tree enumeration of encoder inputs: every uint64/int64 within +-64 of each head boundary and every 2^k+-1; byte/text strings of every length 0..300 and around 65536; all text contents of length <=3 over a 15-byte UTF-8 boundary alphabet (incl. U+FFFD); every subset of <=4 (quick) / <=5 (thorough) keys from a pool of 10 mixed-type keys in every permutation plus every duplicated key, three value styles, the entry callback writing key first / value first / interleaved; all encoder call sequences up to depth 3 (quick) / 5 (thorough) over an 11-call menu. A case is non-trivial when it produced output that was compared byte-for-byte with the independent canonical encoder (or was a refused input); distinct by output/input hash.",
 		Assumptions: []string{
 			"refcbor (independent canonical encoder/decoder written from RFC 8949) is correct",
 			"values between the enumerated boundary windows behave like their neighbours in the same head-size class (small-scope hypothesis)",
